@@ -87,6 +87,100 @@ func c09(x *Ctx) {
 	}
 	c.Min(r1, 12)
 	c09sorted(x, "C09.sorted-values")
+
+	// ---- key stringification has no lossy numeric conversion --------------------------------------------
+	// (a float64 squeezed through int64, or a wide integer through a narrower one, prints different digits
+	// from the same number delivered as uint64/int64 by another encoding once it is out of range)
+	const r3 = "C09.key-no-lossy-conversion"
+	if af := x.Fn(r3, "sample", "distinctValue", "AddAsString"); af != nil {
+		var bad *ssa.Convert
+		eng.Instrs(af, func(in ssa.Instruction) {
+			cv, ok := in.(*ssa.Convert)
+			if !ok {
+				return
+			}
+			from, ok1 := cv.X.Type().Underlying().(*types.Basic)
+			to, ok2 := cv.Type().Underlying().(*types.Basic)
+			if !ok1 || !ok2 {
+				return
+			}
+			c.Examined++
+			isF := func(b *types.Basic) bool { return b.Info()&types.IsFloat != 0 }
+			isI := func(b *types.Basic) bool { return b.Info()&types.IsInteger != 0 }
+			size := func(b *types.Basic) int64 { return types.SizesFor("gc", "amd64").Sizeof(b) }
+			switch {
+			case isF(from) && isI(to):
+				bad = cv
+			case isI(from) && isI(to) && size(to) < size(from):
+				bad = cv
+			case isI(from) && isI(to) && size(to) == size(from) && (from.Info()&types.IsUnsigned != 0) != (to.Info()&types.IsUnsigned != 0):
+				bad = cv
+			case isF(from) && isF(to) && size(to) < size(from):
+				bad = cv
+			}
+		})
+		if bad != nil {
+			c.Violate(r3, "AddAsString", x.Pos(bad), "the key builder converts "+typeString(bad.X.Type())+" to "+typeString(bad.Type())+" before printing: values outside the target's range print different digits than the same number delivered in another wire type, so the sample key depends on the encoding")
+		} else {
+			c.Hold(r3, "AddAsString", x.PosOf(af.Pos()), "numbers are printed from their own type (or widened)")
+		}
+	}
+
+	// ---- span-order independence of the root-only shortcut ---------------------------------------------------
+	// extractValueFromSpan tells its caller whether only root.-prefixed fields were examined (then the other
+	// spans need not be looked at). That answer depends on every field examined so far, not on the one that
+	// produced the value: inside the loop over fields it has to be carried from iteration to iteration.
+	const r4 = "C09.root-shortcut-carried"
+	if ef := x.Fn(r4, "sample", "", "extractValueFromSpan"); ef != nil && ef.Signature.Results().Len() == 3 {
+		n := 0
+		eng.Instrs(ef, func(in ssa.Instruction) {
+			ret, ok := in.(*ssa.Return)
+			if !ok || len(ret.Results) != 3 {
+				return
+			}
+			h := exitLoopHeader(ret)
+			if h == nil {
+				return
+			}
+			n++
+			c.Examined++
+			carried, local := false, ""
+			seen := map[ssa.Value]bool{}
+			var walk func(v ssa.Value)
+			walk = func(v ssa.Value) {
+				if v == nil || seen[v] {
+					return
+				}
+				seen[v] = true
+				switch y := v.(type) {
+				case *ssa.Const:
+				case *ssa.Phi:
+					if y.Block() == h {
+						carried = true
+						return
+					}
+					for _, e := range y.Edges {
+						walk(e)
+					}
+				case *ssa.BinOp:
+					walk(y.X)
+					walk(y.Y)
+				case *ssa.UnOp:
+					walk(y.X)
+				default:
+					if in, ok := v.(ssa.Instruction); ok && h.Dominates(in.Block()) && in.Block() != h {
+						local = v.String()
+					}
+				}
+			}
+			walk(ret.Results[2])
+			c.Decide(carried || local == "", r4, "extractValueFromSpan/return-in-loop", x.Pos(ret), "the root-only flag is carried across the fields examined",
+				"the 'only the root span was examined' flag returned from inside the loop over fields is computed from the current field alone ("+local+"): with mixed root./plain fields the caller stops at the first span, so whether a rule matches depends on the order in which the spans arrived")
+		})
+		if n == 0 {
+			c.Hold(r4, "extractValueFromSpan/no-return-in-loop", x.PosOf(ef.Pos()), "no value is returned from inside the loop over fields")
+		}
+	}
 }
 
 func lookupBasic(name string) (*types.Basic, bool) {
